@@ -281,7 +281,8 @@ class _Timeout(Exception):
     pass
 
 
-U_STAR_BUDGET_S = 30.0  # a normal call takes milliseconds
+U_STAR_BUDGET_S = 10.0  # a normal call takes milliseconds
+_timeouts = {}  # class name -> number of budget overruns in this process
 
 
 def _u_star(cls, order, m):
@@ -387,11 +388,17 @@ def run_case(ctx, case):
 
     for cls in (VOGP, VOGP_AD):
         tag = cls.__name__
+        if _timeouts.get(tag, 0) >= 3:
+            # budget guard: the routine has already been reported as hanging three times in this
+            # process; do not spend the whole run waiting for it (a replay starts afresh)
+            ctx.count("ustar_skipped_after_timeouts")
+            continue
         try:
             u, d = _u_star(cls, order, m)
             u = np.array(u, dtype=float).reshape(-1)
             d = float(d)
         except _Timeout:
+            _timeouts[tag] = _timeouts.get(tag, 0) + 1
             ctx.violation(f"ustar-timeout:{tag}", f"{tag}.compute_u_star did not return within {U_STAR_BUDGET_S:.0f} s", case)
             continue
         except Exception as e:
